@@ -180,3 +180,8 @@ def run(R) -> None:
     R.rule('C17.R2', lambda: r2_off_means_off(R))
     R.rule('C17.R3', lambda: r3_confinement(R))
     R.rule('C17.R4', lambda: r4_label_order(R))
+
+
+def run_thorough(R) -> None:
+    from rules.common import thorough_compositions
+    thorough_compositions(R, 'C17.T1', ['solve_t', 'solve_t_before', 'solve_t_after', '_evaluate'])
